@@ -95,10 +95,11 @@ const (
 	pCustomAcceptNil // caller-written predicate that also accepts "no error": always returns true
 	pMatchDotAll     // "^<beginning>.+$": met by a one-line text, unmet by a recovered panic (its text has newlines, '.' does not cross them)
 	pCustomFailNow   // caller-written predicate that signals its verdict through t.FailNow() alone and returns false
+	pMatchEmpty      // ErrorMatch(".*"): met by every error whose text can be read, the empty text included
 	numPreds
 )
 
-var predNames = [...]string{"none", "AnyError", "Error(met)", "Error(unmet)", "Error(near-miss)", "HasPrefix(met)", "HasPrefix(unmet)", "HasPrefix(near-miss)", "HasSuffix(met)", "HasSuffix(unmet)", "HasSuffix(near-miss)", "Match(met)", "Match(unmet)", "Match(near-miss)", "Match(invalid)", "Error(text+1)", "Error(empty)", "HasPrefix(text+1)", "HasPrefix(empty)", "HasSuffix(1+text)", "HasSuffix(empty)", "custom(silent, accepts any error)", "custom(silent, rejects)", "custom(silent, accepts nil too)", "Match(.+$ must not cross newlines)", "custom(rejects through FailNow only)"}
+var predNames = [...]string{"none", "AnyError", "Error(met)", "Error(unmet)", "Error(near-miss)", "HasPrefix(met)", "HasPrefix(unmet)", "HasPrefix(near-miss)", "HasSuffix(met)", "HasSuffix(unmet)", "HasSuffix(near-miss)", "Match(met)", "Match(unmet)", "Match(near-miss)", "Match(invalid)", "Error(text+1)", "Error(empty)", "HasPrefix(text+1)", "HasPrefix(empty)", "HasSuffix(1+text)", "HasSuffix(empty)", "custom(silent, accepts any error)", "custom(silent, rejects)", "custom(silent, accepts nil too)", "Match(.+$ must not cross newlines)", "custom(rejects through FailNow only)", "Match(.* matches the empty text too)"}
 
 // caseSpec scripts one case: what its collaborators will do.
 type caseSpec struct {
@@ -119,6 +120,7 @@ type caseSpec struct {
 	adjustAfter     bool // the case is listed with a wrong expectation (expected data for marshal, expected value for unmarshal) and its (passing) After hook puts it right before the assertions
 	beforeSetsAfter bool // the case is listed without an After hook; its (passing) Before hook installs the After hook the script calls for
 	adjustPred      bool // with adjust: the case is also listed with the wrong kind of expectation (a predicate where none belongs, or none where one belongs) and its Before hook installs the right one
+	predDrawn       int  // the predicate as drawn, before normalise took it away from a nil-interface case
 	nilData         bool // binary unmarshal helper: the case lists nil input data; the decoder must be handed nil, not an empty non-nil slice
 }
 
@@ -263,6 +265,19 @@ func (c caseSpec) wrongMarshalData(i int, jsonDoc bool) string {
 	}
 	if jsonDoc && c.wrongKind == wJSONEquivalent {
 		b, _ := json.Marshal(c.payload)
+		// the same JSON value, written differently in one of four ways (no tape choice: by
+		// case index and payload length)
+		switch (i + len(c.payload)) % 4 {
+		case 1: // key order alone
+			return fmt.Sprintf(`{"p":%s,"c":%d}`, b, i)
+		case 2: // an escape spelled differently: the first character of the string as \u00XX
+			if len(b) > 2 && b[1] != '\\' && b[1] < 0x80 {
+				return fmt.Sprintf(`{"c":%d,"p":"\u%04x%s}`, i, b[1], b[2:])
+			}
+			return fmt.Sprintf(`{"p":%s,"c":%d}`, b, i)
+		case 3: // a key twice, with the same value
+			return fmt.Sprintf(`{"c":%d,"c":%d,"p":%s}`, i, i, b)
+		}
 		return fmt.Sprintf("{ \"p\": %s,\n  \"c\": %d.0 }", b, i)
 	}
 	return wrongOf(c.marshalData(i, jsonDoc), c.wrongKind)
@@ -278,6 +293,7 @@ type event struct {
 }
 
 type listRun struct {
+	cloneCfg bool // *V with the prototype-cloning TypeHelper: the decoder must be handed a target that carries the configuration
 	specs    []caseSpec
 	enc      int
 	events   []event
@@ -602,13 +618,42 @@ func doUnmarshal(data []byte, set func(caseNo int, payload string)) error {
 func (v V) MarshalText() ([]byte, error)   { return doMarshal(v.Case) }
 func (v V) MarshalBinary() ([]byte, error) { return doMarshal(v.Case) }
 func (v V) MarshalJSON() ([]byte, error)   { return doMarshal(v.Case) }
+
+// unconfigured: with the prototype-cloning TypeHelper every target the helper hands to the
+// decoder comes from New(prototype) and carries the prototype's Mode; a bare new(V) does not.
+func unconfigured(v *V, data []byte) bool {
+	l := cur
+	if l == nil || !l.cloneCfg || v == nil || v.Mode != "" {
+		return false
+	}
+	k := strings.IndexByte(string(data), '|')
+	if k <= 0 {
+		return false
+	}
+	i, err := strconv.Atoi(string(data[:k]))
+	if err != nil || i < 0 || i >= len(l.specs) || l.specs[i].nilExpect || l.specs[i].nilValue || l.specs[i].beh == bNilReceiver {
+		return false // the case lists no prototype
+	}
+	l.events = append(l.events, event{"unscripted", i})
+	return true
+}
+
 func (v *V) UnmarshalText(b []byte) error {
+	if unconfigured(v, b) {
+		return errUnscripted
+	}
 	return doUnmarshal(b, func(c int, p string) { v.Case, v.Payload = c, p })
 }
 func (v *V) UnmarshalBinary(b []byte) error {
+	if unconfigured(v, b) {
+		return errUnscripted
+	}
 	return doUnmarshal(b, func(c int, p string) { v.Case, v.Payload = c, p })
 }
 func (v *V) UnmarshalJSON(b []byte) error {
+	if unconfigured(v, b) {
+		return errUnscripted
+	}
 	return doUnmarshal(b, func(c int, p string) { v.Case, v.Payload = c, p })
 }
 
